@@ -1220,12 +1220,15 @@ func (c *c11ctx) ruleR12() {
 	root := p.SSAPkg("")
 	n := 0
 	ord := map[*ssa.Function]int{}
-	for _, fn := range p.ModuleFunctions() {
+	for _, fn := range p.EveryModuleFunction() {
 		top := fn
 		for top.Parent() != nil {
 			top = top.Parent()
 		}
-		if top.Pkg != root || top.Signature.Recv() == nil || !an.NamedIs(top.Signature.Recv().Type(), load.ModPath, "Conn") {
+		isConnMethod := top.Signature.Recv() != nil && an.NamedIs(top.Signature.Recv().Type(), load.ModPath, "Conn")
+		// a drain moved into a helper that did not exist at review time is judged there: handing the drain's error
+		// to the caller is reporting it
+		if top.Pkg != root || !(isConnMethod || an.IsNew(top)) {
 			continue
 		}
 		an.EachInstr(fn, func(ins ssa.Instruction) {
